@@ -66,7 +66,12 @@ def build_case(rng, tier, kind):
         dump_every = 45
     evs = []
     seen = []
+    # a third of the short histories also shut down cleanly and restart once (flush, reopen): what
+    # later statements read then comes from the data file, not from the cache
+    reload_at = rng.randrange(2, len(sts)) if kind in ("small", "split") and len(sts) > 3 and rng.random() < 0.34 else None
     for i, st in enumerate(sts):
+        if i == reload_at:
+            evs += [("flush",), ("crash",), ("tables", list(seen) + ["sys_schema"]), ("dump",)]
         evs.append(("stmt", st))
         if st["k"] == "create" and st["table"] not in seen:
             seen.append(st["table"])
@@ -152,6 +157,7 @@ def run(ctx):
         "traces_validated_against_impl": len(cases),
         "statements_run": nst,
         "case_kinds": kinds,
+        "histories_with_clean_restart": sum(1 for e in evs if any(x[0] == "crash" for x in e)),
         "histories_with": tagcount,
         "samples": [{"kind": cases[i][0], "first_statements": [hist.sql_stmt(x[1]) for x in evs[i] if x[0] == "stmt"][:6]}
                     for i in range(0, len(cases), max(1, len(cases) // 3))][:3],
@@ -161,16 +167,20 @@ def run(ctx):
 
     def shrink(i, which):
         ev = evs[i]
-        stmts_idx = [j for j, x in enumerate(ev) if x[0] == "stmt"]
+        stmts_idx = [j for j, x in enumerate(ev) if x[0] in ("stmt", "flush", "crash")]
 
-        def rebuild(sts):
+        def rebuild(items):
             seen, res = [], []
-            for st in sts:
-                res.append(("stmt", st))
-                if st["k"] == "create" and st["table"] not in seen:
-                    seen.append(st["table"])
-                res.append(("tables", list(seen) + ["sys_schema"]))
-                res.append(("dump",))
+            every = max(1, len(items) // 12)        # long histories: observe sparsely while shrinking
+            for n, it in enumerate(items):
+                res.append(it)
+                if it[0] == "flush":
+                    continue
+                if it[0] == "stmt" and it[1]["k"] == "create" and it[1]["table"] not in seen:
+                    seen.append(it[1]["table"])
+                if n % every == 0 or n == len(items) - 1 or it[0] == "crash":
+                    res.append(("tables", list(seen) + ["sys_schema"]))
+                    res.append(("dump",))
             return res
 
         def fails(sts):
@@ -181,7 +191,7 @@ def run(ctx):
             except RuntimeError:
                 return False
             return bool(m2 if which == "MM" else s2)
-        sts = [ev[j][1] for j in stmts_idx]
+        sts = [ev[j] for j in stmts_idx]
         if not fails(sts):
             return ev, None
         small = hist.ddmin(sts, fails, budget=45)
